@@ -40,7 +40,7 @@ def c_connect(si, login=None):
     return ("C", si, login)          # host/port filled in from the peer's endpoint of session si
 
 
-MODEL_PORT = 41000
+MODEL_PORT = 20000     # outside the ephemeral range, so that substitutions cannot chain
 
 
 # ---------------------------------------------------------------------------------------------- serialisation
@@ -126,15 +126,15 @@ def ser_reaction(r, mp, segs_override=None, mode="P"):
     out.append(str(len(r["on_close"])))
     for it in r["on_close"]:
         out += ser_item(it, mp)
-    out += [b01(r["drop_pending"]), b01(r["close_after"]), b01(r["tls_ok"])]
+    out += [b01(r["drop_pending"]), b01(r["close_after"]), b01(r.get("model_tls_ok", r["tls_ok"]))]
     d = r.get("data")
     if r.get("listen"):
         reach, tls_ok, segs, end, shut = (r["listen"] == "open"), True, [], "X", True
     elif d:
         reach = d.get("reachable", True)
-        tls_ok = d.get("tls_ok", True)
+        tls_ok = d.get("model_tls_ok", d.get("tls_ok", True))
         segs = segs_override if segs_override is not None else d.get("segs", [])
-        end = "E" if d.get("end", "E") == "E" else "X"
+        end = "E" if (d.get("end", "E") == "E" or not d.get("tls")) else "X"     # a bare close is the end of file without TLS
         shut = d.get("shutdown_ok", True)
     else:
         reach, tls_ok, segs, end, shut = False, False, [], "X", False
